@@ -160,6 +160,14 @@ func (nc nextConn) Read(p []byte) (n int, err error) {
 	return
 }
 
+// Close closes the teed connection and the pipe feeding the branch: a connection
+// that is closed before it was read to EOF would otherwise leave the branch
+// handler blocked on the pipe for good.
+func (nc nextConn) Close() error {
+	_ = nc.pipe.Close()
+	return nc.Conn.Close()
+}
+
 // Interface guards
 // CloseWrite forwards a half-close to the connection that is being teed.
 func (nc nextConn) CloseWrite() error {
